@@ -216,10 +216,23 @@ def check(ctx):
         if found is not None:
             src = operand_term(body, found.args[0], through_calls=True) if found.args else ("unknown",)
             whole = src[0] == "path" and bool(src[2]) and src[2][-1] == "pr" and 1 <= src[1] <= body.nargs
-            if not whole and src[0] == "call" and (src[1].path or "").endswith("Cfg::get_non_terminal_positions"):
+            if not whole:
                 # the helper enumerates the non-terminal occurrences of every production of the grammar it is called on
-                rp = raw_operand_place(body, src[1].args[0]) if src[1].args else None
-                whole = bool(rp) and 1 <= rp[0] <= body.nargs
+                t2 = operand_term(body, found.args[0]) if found.args else ("unknown",)
+                hops = 0
+                adapt = []
+                while t2[0] in ("call", "proj") and hops < 8:
+                    hops += 1
+                    if t2[0] == "proj":
+                        t2 = t2[1]
+                        continue
+                    nm2 = (t2[1].path or "").split("::")[-1]
+                    if (t2[1].path or "").endswith("Cfg::get_non_terminal_positions"):
+                        rp = raw_operand_place(body, t2[1].args[0]) if t2[1].args else None
+                        whole = bool(rp) and 1 <= rp[0] <= body.nargs and not (set(adapt) & PARTIAL)
+                        break
+                    adapt.append(nm2)
+                    t2 = operand_term(body, t2[1].args[0]) if t2[1].args else ("unknown",)
             ctx.check(whole, "R12.1", "augment_grammar|scan-covers-all-productions",
                       "the right-hand-side test iterates the grammar's whole production list (cfg.pr)",
                       "the right-hand-side test runs on %s, not on the grammar's whole production list cfg.pr: an occurrence of "
